@@ -334,6 +334,8 @@ func linqToSlice(fr *Frame, site ssa.Instruction, fn *ssa.Function, args []*Term
 		vc.assume(st.guard, leaf(fmt.Sprintf("(= (%s 0) 0)", cnt)))
 		vc.assume(st.guard, leaf(fmt.Sprintf("(forall ((j Int)) (! (=> (and (<= 0 j) (< j %s)) (= (%s (+ j 1)) (+ (%s j) (ite %s 1 0)))) :qid linq-step :pattern ((%s j) (%s (+ j 1)))))", n, cnt, cnt, pj, cnt, cnt)))
 		vc.assume(st.guard, leaf(fmt.Sprintf("(forall ((a Int) (b Int)) (! (=> (and (<= 0 a) (<= a b) (<= b %s)) (and (<= 0 (%s a)) (<= (%s a) (%s b)) (<= (- (%s b) (%s a)) (- b a)))) :qid linq-mono :pattern ((%s a) (%s b))))", n, cnt, cnt, cnt, cnt, cnt, cnt, cnt)))
+		pa := pred("a")
+		vc.assume(st.guard, leaf(fmt.Sprintf("(forall ((a Int) (b Int)) (! (=> (and (<= 0 a) (< a b) (<= b %s) %s) (< (%s a) (%s b))) :qid linq-strict :pattern ((%s a) (%s b))))", n, pa, cnt, cnt, cnt, cnt)))
 		// kept source elements appear in the output at position cnt(j)
 		vc.assume(st.guard, leaf(fmt.Sprintf("(forall ((j Int)) (! (=> (and (<= 0 j) (< j %s) %s) (and (< (%s j) %s) %s)) :qid linq-kept :pattern ((%s j)) :pattern (%s)))", n, pj, cnt, outLen, mkEq(outAt(fmt.Sprintf("(%s j)", cnt)), proj("j")), cnt, srcAddr("j"))))
 		// onto: every output position comes from a kept source position
